@@ -152,6 +152,7 @@ var c11Connections = []c11Lines{
 	{"lower", []string{"upgrade"}},
 	{"in-list", []string{"keep-alive, Upgrade"}},
 	{"second-line", []string{"keep-alive", "Upgrade"}},
+	{"first-line", []string{"Upgrade", "keep-alive"}},
 	{"prefixed-lookalike", []string{"xUpgrade"}},
 	{"suffixed-lookalike", []string{"Upgrade2"}},
 	{"other-token", []string{"keep-alive"}},
@@ -164,6 +165,7 @@ var c11Upgrades = []c11Lines{
 	{"mixed-case", []string{"WebSocket"}},
 	{"in-list", []string{"h2c, websocket"}},
 	{"second-line", []string{"h2c", "websocket"}},
+	{"first-line", []string{"websocket", "h2c"}},
 	{"suffixed-lookalike", []string{"websockets"}},
 	{"prefixed-lookalike", []string{"xwebsocket"}},
 	{"other-token", []string{"h2c"}},
@@ -195,6 +197,8 @@ var c11Offered = []c11Lines{
 	{"chat,echo", []string{"chat, echo"}},
 	{"ECHO", []string{"ECHO"}},
 	{"two-lines", []string{"chat", "echo"}},
+	{"two-lines-rev", []string{"echo", "chat"}},
+	{"three-lines", []string{"echo", "foo", "bar"}},
 }
 
 var c11Supported = [][]string{nil, {"echo"}, {"echo", "chat"}, {"foo"}}
